@@ -12,7 +12,8 @@ use scrypto_test::prelude::*;
 use serde_json::json;
 use vh_common::*;
 
-const NR: usize = 5; // resources 0 = XRD, 1..4 fungible
+const NR: usize = 6; // resources 0 = XRD, 1..4 fungible, 5 non-fungible (integer ids)
+const NF: usize = 5;
 const NBADGE: usize = 3; // 0 = Resource(badge resource), 1 = NonFungible(nf:#1#), 2 = Resource(other)
 
 #[derive(Clone, Copy, PartialEq, Eq, Debug)]
@@ -66,6 +67,8 @@ struct World {
     res: Vec<ResourceAddress>,
     badges: Vec<ResourceOrNonFungible>,
     badge_res: Vec<ResourceAddress>,
+    bystander: ComponentAddress,
+    bystander_init: Option<Obs>,
 }
 
 impl World {
@@ -79,8 +82,25 @@ impl World {
         };
         let (dep_pk, _, dep) = ledger.new_account(false);
         let mut res = vec![XRD];
-        for _ in 1..NR {
+        for _ in 1..NF {
             res.push(ledger.create_fungible_resource(dec!(100000000), 0, dep));
+        }
+        // a non-fungible resource with 150 integer ids, all held by the depositor
+        {
+            let manifest = ManifestBuilder::new()
+                .lock_fee_from_faucet()
+                .create_non_fungible_resource(
+                    OwnerRole::None,
+                    NonFungibleIdType::Integer,
+                    false,
+                    NonFungibleResourceRoles::default(),
+                    metadata!(),
+                    Some((1..=150u64).map(|i| (NonFungibleLocalId::integer(i), ())).collect::<Vec<_>>()),
+                )
+                .try_deposit_entire_worktop_or_abort(dep, None)
+                .build();
+            let receipt = ledger.execute_manifest(manifest, vec![]);
+            res.push(receipt.expect_commit(true).new_resource_addresses()[0]);
         }
         let b0 = ledger.create_fungible_resource(dec!(1000), 0, dep);
         let nf = ledger.create_non_fungible_resource(dep); // ids 1, 2, 3
@@ -94,7 +114,19 @@ impl World {
         for _ in 0..3 {
             ledger.load_account_from_faucet(dep);
         }
-        World { ledger, v2, dep, dep_pk, res, badges, badge_res: vec![b0, nf, b2] }
+        // a bystander account with holdings and a deposit configuration of its own: it must never change
+        let (by_pk, _, bystander) = ledger.new_account(false);
+        let mut w = World { ledger, v2, dep, dep_pk, res, badges, badge_res: vec![b0, nf, b2], bystander, bystander_init: None };
+        for op in [
+            Op::Deposit(vec![(1, 7), (2, 9), (NF, 2)]),
+            Op::SetDefault(DefaultRule::AllowExisting),
+            Op::SetPref(3, Pref::Disallowed),
+            Op::AddAuth(0),
+        ] {
+            assert_eq!(w.run_op(bystander, by_pk, &op), Out::Deposited);
+        }
+        w.bystander_init = Some(w.observe(bystander));
+        w
     }
     fn res_index(&self, r: &ResourceAddress) -> usize {
         self.res.iter().position(|x| x == r).expect("pool resource")
@@ -266,7 +298,7 @@ impl World {
                                 rej.iter()
                                     .map(|e| match e {
                                         RejectedDepositEvent::Fungible(r, a) => (self.res_index(r), whole(*a)),
-                                        RejectedDepositEvent::NonFungible(..) => panic!("no non-fungibles in the pool"),
+                                        RejectedDepositEvent::NonFungible(r, ids) => (self.res_index(r), ids.len() as i64),
                                     })
                                     .collect(),
                             )
@@ -297,7 +329,7 @@ fn classify(e: &RuntimeError) -> &'static str {
         },
         RuntimeError::SystemError(SystemError::AssertAccessRuleFailed) => "EBadgeNotPresent",
         RuntimeError::SystemModuleError(SystemModuleError::AuthError(AuthError::Unauthorized(_))) => "EUnauthorized",
-        RuntimeError::ApplicationError(ApplicationError::VaultError(_)) => "EVault",
+        RuntimeError::ApplicationError(ApplicationError::VaultError(_)) | RuntimeError::ApplicationError(ApplicationError::NonFungibleVaultError(_)) => "EVault",
         other => {
             if std::env::var("C39_DEBUG").is_ok() {
                 eprintln!("EOther: {:?}", other);
@@ -388,6 +420,7 @@ fn gen_buckets(rng: &mut Rng, single: bool, obs: &Obs) -> Vec<(usize, i64)> {
             let amt = match rng.below(8) {
                 0 => 0,
                 1 => 1,
+                _ if r == NF => rng.range(1, 4) as i64,
                 _ => rng.range(2, 50) as i64,
             };
             (r, amt)
@@ -447,6 +480,7 @@ struct Case {
     init: Obs,
     steps: Vec<(Op, Out, Obs)>,
     dep_before: Vec<Vec<i64>>, // depositor balances before each step and after the last
+    bystander_fails: Vec<String>,
 }
 
 fn run_case(w: &mut World, rng: &mut Rng, len: usize, matrix: Option<usize>) -> Case {
@@ -468,6 +502,7 @@ fn run_case(w: &mut World, rng: &mut Rng, len: usize, matrix: Option<usize>) -> 
     let mut obs = init.clone();
     let mut steps = Vec::new();
     let mut dep_before = vec![w.dep_balances()];
+    let mut bystander_fails: Vec<String> = Vec::new();
     // matrix cases: a fixed configuration prefix chosen by the matrix index, then deposits of every variant
     let mut ops: Vec<Op> = Vec::new();
     if let Some(m) = matrix {
@@ -493,9 +528,19 @@ fn run_case(w: &mut World, rng: &mut Rng, len: usize, matrix: Option<usize>) -> 
         let out = w.run_op(acct, pk, &op);
         obs = w.observe(acct);
         dep_before.push(w.dep_balances());
+        let by = w.observe(w.bystander);
+        if Some(&by) != w.bystander_init.as_ref() {
+            bystander_fails.push(format!("step {}: a bystander account changed: {:?} (after {:?})", k, by, op));
+        }
         steps.push((op, out, obs.clone()));
     }
-    Case { v2: w.v2, init, steps, dep_before }
+    // hand the non-fungibles back to the depositor so that its supply lasts (not part of the case)
+    if let Some((_, n)) = obs.vaults.iter().find(|(r, _)| *r == NF) {
+        if *n > 0 {
+            let _ = w.run_op(acct, pk, &Op::Withdraw(NF, *n));
+        }
+    }
+    Case { v2: w.v2, init, steps, dep_before, bystander_fails }
 }
 
 // ---------------- direct oracle ----------------
@@ -572,7 +617,7 @@ fn main() {
         "C39",
         args.seed,
         "per case a fresh account and 6..22 operations: guarded deposits of all four variants (random batches of 0..5 buckets over \
-         XRD + 4 fungibles with a hot resource, empty buckets, named badge listed/unlisted x proven/unproven, Resource and NonFungible \
+         XRD + 4 fungibles + 1 non-fungible resource with a hot resource, empty buckets, named badge listed/unlisted x proven/unproven, Resource and NonFungible \
          badges), owner deposits, withdrawals and deposit-configuration changes; the first 18 cases per ledger enumerate the matrix \
          default rule x preference x listed x (variant x named x proven); half on an Anemone ledger, half on the latest; \
          non-trivial = at least one refused-and-refunded, one refused-and-failed and one full deposit; distinct by canonical text",
@@ -615,7 +660,9 @@ fn main() {
         let canon = format!("{} {}", case.v2, case.steps.iter().map(|(o, out, _)| format!("{}=>{}", op_coq(o), out_coq(out))).collect::<Vec<_>>().join(";"));
         report.case(&canon, n_dep > 0 && n_ref > 0 && n_fail > 0);
         report.count(if case.v2 { "cases_v2" } else { "cases_v1" });
-        for what in oracle(&case) {
+        let mut fails = oracle(&case);
+        fails.extend(case.bystander_fails.iter().cloned());
+        for what in fails {
             report.oracle_failure(
                 i,
                 "",
